@@ -176,3 +176,50 @@ def totality_signatures(k: int, b0: int, b1: int, b2: int, b3: int, n: int) -> b
     except Exception:
         return False
     return t in CODES and f.tell() == 0
+
+
+# ---------------------------------------------------------------------------------------------------- totality over a finite alphabet (decided; the fully symbolic versions above are bug hunting)
+
+SIGS = [b'\x04\x00\x00\x00\x00\x00\x00\x00\xff\xff\xff\xff', b'\x04\x00\x00\x00\x01\x00\x00\x00\x04\x00', b'\x00' * 8 + b'\x20\x01\x00\x00',
+        b'\xd0\xcf\x11\xe0\xa1\xb1\x1a', b'\x01\x19\xf1\xf8\xff\x82\x03', b'<?xml', b'%PDF', b'%!Ps', b'PK\x03', b'II*', b'\xff\xd8\xff',
+        b'~V\nVERS. 2.0 :', b'0001V1.00RECORD08192', b'\x00' * 8 + b'\x5c\x00\x00\x00' + b'0001V1.00RECORD08192',
+        b'\x00\x3e\x00\x00\x80\x00', b'\x00\x00\x00\x00\x00\x00\x00\x00\x4a\x00\x00\x00\x00\x3e\x00\x00\x80\x00', b'UTIM Unix Time sec\n', b'~Version\n']
+ALPHABET = [0x00, 0x01, 0x20, 0x0a, 0x30, 0x7e, 0x80, 0xff]         # NUL, SOH, space, LF, '0', '~', two high bytes
+
+
+def totality_signatures_alphabet(k: int, b0: int, b1: int, b2: int, b3: int, n: int) -> bool:
+    """
+    pre: 0 <= k <= 17 and 0 <= b0 <= 7 and 0 <= b1 <= 7 and b2 in (0, 2, 5, 7) and b3 in (0, 2, 7) and n in (0, 1, 7, 40)
+    pre: PART < 0 or k == PART
+    post: _
+    """
+    k, n = mark.pick(k, 0, 17), mark.pick_from(n, (0, 1, 7, 40))
+    b0, b1, b2, b3 = mark.pick(b0, 0, 7), mark.pick(b1, 0, 7), mark.pick_from(b2, (0, 2, 5, 7)), mark.pick_from(b3, (0, 2, 7))
+    with mark.untraced():
+        data = SIGS[k] + bytes([ALPHABET[b0], ALPHABET[b1], ALPHABET[b2], ALPHABET[b3]]) + b'A' * n
+        mark.hit()
+        try:
+            t, ok = _typed(data)
+        except Exception:
+            return False
+        return ok
+
+
+def totality_alphabet(n: int, c0: int, c1: int, c2: int, c3: int, c4: int) -> bool:
+    """
+    pre: 0 <= n <= 5
+    pre: 0 <= c0 <= 7 and 0 <= c1 <= 7 and 0 <= c2 <= 7 and 0 <= c3 <= 7 and 0 <= c4 <= 7
+    pre: (n >= 1 or c0 == 0) and (n >= 2 or c1 == 0) and (n >= 3 or c2 == 0) and (n >= 4 or c3 == 0) and (n >= 5 or c4 == 0)
+    pre: PART < 0 or c0 == PART
+    post: _
+    """
+    n = mark.pick(n, 0, 5)
+    cs = [mark.pick(c, 0, 7) if n > i else 0 for i, c in enumerate((c0, c1, c2, c3, c4))]
+    with mark.untraced():
+        data = bytes(ALPHABET[c] for c in cs[:n])
+        mark.hit()
+        try:
+            t, ok = _typed(data)
+        except Exception:
+            return False
+        return ok
